@@ -8,3 +8,9 @@ import Proofs.C03
 #print axioms Xsel.C03.union_self_of_sorted
 #print axioms Xsel.C03.nodup_of_strict
 #print axioms Xsel.C03.count_union
+#print axioms Xsel.C03.result_monotone
+#print axioms Xsel.C03.args_monotone
+#print axioms Xsel.C03.run_monotone
+#print axioms Xsel.C03.spec_result_monotone
+#print axioms Xsel.C03.forward_expr_ascending
+#print axioms Xsel.C03.union_result_ascending
